@@ -47,6 +47,20 @@ func (d Denom) Validate() error {
 	return nil
 }
 
+// ValidateBaseNotHopLike returns an error if ExtractDenomFromPath would split the base denomination
+// into a trace hop and a shorter base once the path is prefixed by a hop, i.e. if the second "/"
+// separated segment of the base is a channel or client identifier in the format ibc-go generates.
+// Such a denomination does not survive the Path() -> ExtractDenomFromPath round trip performed by the
+// receiving chain and by refunds.
+func (d Denom) ValidateBaseNotHopLike() error {
+	baseSplit := strings.Split(d.Base, "/")
+	if len(baseSplit) >= 2 && (channeltypes.IsValidChannelID(baseSplit[1]) || clienttypes.IsValidClientID(baseSplit[1])) {
+		return errorsmod.Wrapf(ErrInvalidDenomForTransfer, "base denomination %s would be parsed as a denomination trace", d.Base)
+	}
+
+	return nil
+}
+
 // Hash returns the hex bytes of the SHA256 hash of the Denom fields using the following formula:
 //
 // hash = sha256(trace + "/" + baseDenom)
